@@ -62,7 +62,7 @@ func TestC04_Read(t *testing.T) {
 	RunProp(t, "c04.read", genHistRead, readExec("c04.read", oracleC04, ntC04))
 }
 func TestC09_Read(t *testing.T) {
-	RunProp(t, "c09.read", genReuseHistory, readExec("c09.read", oracleFull, ntC09))
+	RunProp(t, "c09.read", genReuseHistory, readExec("c09.read", oracleC09, ntC09))
 }
 
 // ---------------------------------------------------------------------------
